@@ -103,7 +103,9 @@ fn bprime_module_list_of_this_process() {
     for w in sorted.windows(2) { assert!(w[0].1 <= w[1].0, "modules do not overlap"); }
     // user mappings
     for (k, target) in mods.iter().enumerate() {
-        for grow in [0usize, 4096] {
+        for (grow, id_len) in [(0usize, 16usize), (4096, 16), (0, 1), (0, 8), (4096, 15), (0, 20), (4096, 32)] {
+            // identifiers shorter than, equal to and longer than a GUID / a SHA-1 (lld's default is 8 bytes)
+            let ident: Vec<u8> = (1u8..=id_len as u8).collect();
             let user = crate::maps_reader::MappingEntry {
                 mapping: MappingInfo {
                     start_address: target.base as usize - grow, size: target.size as usize + 2 * grow,
@@ -111,7 +113,7 @@ fn bprime_module_list_of_this_process() {
                     offset: 0, permissions: procfs_core::process::MMPermissions::READ,
                     name: Some(std::ffi::OsString::from(format!("/user/supplied-{k}.so"))),
                 },
-                identifier: (1u8..=16).collect(),
+                identifier: ident.clone(),
             };
             let mut config = MinidumpWriter::new(dumper.pid, dumper.pid);
             config.user_mapping_list = vec![user];
@@ -124,7 +126,7 @@ fn bprime_module_list_of_this_process() {
             let u = at_base[0];
             assert_eq!((u.base, u.size as usize), (target.base - grow as u64, target.size as usize + 2 * grow), "listed verbatim");
             assert_eq!(u.name, format!("/user/supplied-{k}.so"));
-            assert_eq!(&u.cv[4..], &(1u8..=16).collect::<Vec<u8>>()[..], "with the supplied identifier");
+            assert_eq!(&u.cv[4..], &ident[..], "with exactly the supplied identifier ({id_len} bytes): nothing added, nothing cut");
         }
     }
     println!("BPRIME evaluations={n}");
